@@ -1,0 +1,82 @@
+/*!
+Verification hooks.
+
+This module only exists when compiling with `--cfg emit_rs_emit_verif`. It is not part of the public API.
+*/
+
+use std::{
+    sync::atomic::{AtomicPtr, AtomicU32, Ordering},
+    time::Duration,
+};
+
+/**
+A scheduling point in the channel.
+*/
+#[derive(Debug, Clone, Copy, PartialEq, Eq, Hash)]
+pub enum Point {
+    SendLock,
+    TrySendLock,
+    WhenEmptyLock,
+    WhenFlushedLock,
+    SenderDropLock,
+    ReceiverDropLock,
+    MetricsLock,
+    RecvSwapLock,
+    RecvTaken,
+    RecvBeforeBatch,
+    RecvAfterBatch,
+    RecvBeforeRetryWait,
+    RecvBeforeNotifyFlush,
+    RecvBeforeIdleWait,
+}
+
+/**
+A view of the channel state, read under its lock.
+*/
+#[derive(Debug, Clone, Copy, PartialEq, Eq)]
+pub struct Snapshot {
+    pub pending_len: usize,
+    pub is_open: bool,
+    pub is_in_batch: bool,
+    pub on_take: usize,
+    pub on_flush: usize,
+}
+
+static HOOK: AtomicPtr<()> = AtomicPtr::new(std::ptr::null_mut());
+static DELAY_DIVISOR: AtomicU32 = AtomicU32::new(1);
+
+/**
+Install a function to call at every [`Point`].
+*/
+pub fn set_hook(hook: Option<fn(Point)>) {
+    HOOK.store(
+        hook.map(|hook| hook as *mut ()).unwrap_or(std::ptr::null_mut()),
+        Ordering::SeqCst,
+    );
+}
+
+#[inline]
+pub(crate) fn point(point: Point) {
+    let hook = HOOK.load(Ordering::SeqCst);
+
+    if !hook.is_null() {
+        // SAFETY: Only `fn(Point)`s are stored in `HOOK`
+        let hook = unsafe { std::mem::transmute::<*mut (), fn(Point)>(hook) };
+
+        hook(point)
+    }
+}
+
+/**
+Divide the delays the receiver asks its `wait` function for.
+*/
+pub fn set_delay_divisor(divisor: u32) {
+    DELAY_DIVISOR.store(divisor.max(1), Ordering::SeqCst);
+}
+
+pub(crate) fn scaled_delay(delay: Duration) -> Option<Duration> {
+    match DELAY_DIVISOR.load(Ordering::SeqCst) {
+        1 => None,
+        divisor => Some(delay / divisor),
+    }
+}
